@@ -447,7 +447,7 @@ class FlowMixin:
             raise Unsupported("await on async generator")
         if getattr(co, "started", False):
             raise Unsupported("coroutine awaited twice")
-        return self.run_function(co.info, co.args, st, k, closure=co.closure)
+        return self.run_function(co.info, co.args, st, k, closure=co.closure, direct=co.direct)
 
     def coro_ref(self, st, co):
         if co.ref is None:
